@@ -65,6 +65,9 @@ def one_case(args):
     if dup:
         res['problems'].append('the script defines %r more than once' % dup)
     res['tests'] = tests
+    # substrings the generated tests ignore that look like numeric dates (checked against the date model in run())
+    res['date_subs'] = sorted(set(s_ for inf_ in tests.values() for s_ in inf_.get('substrings', [])
+                                  if isinstance(s_, str) and re.match(r'^\d{1,4}[/.-]\d{1,2}[/.-]\d{1,4}$', s_)))
     kinds = ['none', 'stdout', 'stderr', 'exit'] + ['file:' + n for n in sorted(beh['files'])] + ['missing:' + n for n in sorted(beh['files'])]
     rng.shuffle(kinds)
     for kind in kinds[:5] + (['none'] if 'none' not in kinds[:5] else []):
@@ -188,6 +191,22 @@ def run(ctx):
     seeds = [ctx.rng.randrange(1 << 30) for _ in range(n)]
     results = G.pmap(one_case, [(i, s, base) for i, s in enumerate(seeds)])
     payloads, meta = [], []
+    # ---- every date-like substring a generated test ignores is a date by the (proved) date detector of Gentest/DateLike.v,
+    # for the window gentest uses (the day of generation, give or take a day): anything else excuses lines it must not
+    if ctx.model_ok:
+        import datetime as _dt
+        t0 = _dt.date.today()
+        lo_, hi_ = t0 - _dt.timedelta(days=2), t0 + _dt.timedelta(days=2)
+        win = [[[lo_.year, lo_.month, lo_.day], [hi_.year, hi_.month, hi_.day]]]
+        for r in results:
+            for sub_ in r.get('date_subs', []):
+                a_, b_, c_ = [int(x_) for x_ in re.split(r'[/.-]', sub_)]
+                o_ = ctx.model.call(25, [win, a_, b_, c_])
+                ctx.bump('date_substrings_checked')
+                if not bool(o_[0]):
+                    ctx.fail({'behaviour': r.get('behaviour'), 'flags': r.get('flags'), 'ignored_substring': sub_},
+                             'the generated test ignores every line containing %r, which is not a date near the day of generation '
+                             '(a later change on such a line would go unnoticed)' % sub_)
     for r in results:
         case = {k: r.get(k) for k in ('behaviour', 'flags', 'prerun', 'offline')}
         for p in r['problems']:
